@@ -90,7 +90,7 @@ def run(ctx):
         chk.ob("C09.a", f"{commit.path} [placeholder after truncate]", ok, f"{len(shr)} truncation site(s), each followed by prepare_for_write on every path to return" if ok else "commit() truncates the buffer (removing the placeholder of the abandoned payload) and can return without re-adding it: the next payload's first 4 bytes are overwritten by its length", commit.loc())
         # success path prepares the next payload: offsets.push dominates a prepare_for_write
         offp = [c for c in nonforeign_calls(commit) if c.fn is commit and c.is_("Vec<T, A>::push") and "'offsets'" in repr(arg_syms(c)[0])]
-        ok = len(offp) == 1 and any(b.dominates(offp[0].bb, p_.bb) for p_ in prep) and not [r for r in b.return_blocks() if r in b.reachable(offp[0].bb, cut={p_.bb for p_ in prep})]
+        ok = len(offp) == 1 and bool(prep) and not [r for r in b.return_blocks() if r in b.reachable(offp[0].bb, cut={p_.bb for p_ in prep})]
         chk.ob("C09.a", f"{commit.path} [placeholder after commit]", ok, "a successful commit prepares the next payload" if ok else "a successful commit does not prepare the placeholder of the next payload", commit.loc())
     if newf:
         prep = [c for c in nonforeign_calls(newf) if c.is_("PayloadWriter::prepare_for_write")]
@@ -271,9 +271,10 @@ def run(ctx):
         lits = []
         for c in nonforeign_calls(wt):
             if c.fn is wt and c.is_("extend_from_slice", "Vec<T, A>::push") and is_param(_root(arg_syms(c)[0]), 2):
-                v = _bytes_const(arg_syms(c)[1]) if c.is_("extend_from_slice") else byte(c)
-                if v is not None:
-                    lits.append((v, c))
+                vs = _bytes_consts(arg_syms(c)[1]) if c.is_("extend_from_slice") else [byte(c)]
+                for v in vs:
+                    if v is not None:
+                        lits.append((v, c))
         order = {v: c for v, c in lits}
         need_l = ["|@", "|#", "|T", "\n"]
         ok = all(x in order for x in need_l)
@@ -283,7 +284,9 @@ def run(ctx):
             ok = all(seq[i + 1].bb in b.reachable(seq[i].bb) and seq[i].bb not in b.reachable(seq[i + 1].bb) for i in range(3))
             ok = ok and not in_cycle(b, order["\n"].bb) and not [r for r in b.return_blocks() if r in b.reachable(0, cut={order["\n"].bb})]
         ch = [c for c in nonforeign_calls(wt) if c.fn is wt and c.is_("Iterator::chain")]
-        okc = len(ch) == 1 and is_param(arg_syms(ch[0])[0], 4) and sym_is_call(arg_syms(ch[0])[1], "Key::labels")
+        from props.common import ITER_VIEWS
+
+        okc = len(ch) == 1 and is_param(sym_through(arg_syms(ch[0])[0], *ITER_VIEWS), 4) and sym_is_call(arg_syms(ch[0])[1], "Key::labels")
         chk.ob("C09.e", f"{wt.path} [trailer order]", ok and okc, "|@rate, |#tags (global labels chained before the key's), |Ttimestamp, newline — newline on every path" if ok and okc else f"trailer tokens {[v for v, _ in lits]} are not in the order rate, tags, timestamp, newline, or tags are not global.chain(key labels)", wt.loc())
         fm = [c for c in nonforeign_calls(wt) if "Buffer::format" in (c.resolved or "")]
         okf = all(not c.is_("Buffer::format_finite") for c in fm) and len(fm) == 2
@@ -293,13 +296,31 @@ def run(ctx):
     if commit:
         b = commit.body
         sy = Sym(commit)
-        cmpok = False
-        for bb, dd, t_t, f_t in bool_switches(b):
-            dd = strip_sym(dd)
-            if dd[0] == "bin" and dd[1] == "Gt" and sym_is_call(strip_sym(dd[2]), "PayloadWriter::current_len") and self_field(dd[3], "max_payload_len"):
-                tr = [c for c in buf_ops(commit) if c.is_("truncate")]
-                cmpok = bool(tr) and all(any(lab is True for d2, lab in gates(b, t.bb) if strip_sym(d2) == dd) for t in tr)
-        chk.ob("C09.c", f"{commit.path} [limit test]", cmpok, "current_len() > max_payload_len -> truncate and reject" if cmpok else "commit does not reject exactly when the measured length exceeds max_payload_len", commit.loc())
+        from facts import PredFlow
+
+        def is_len(x):
+            return sym_is_call(strip_sym(x), "PayloadWriter::current_len")
+
+        def is_max(x):
+            return self_field(x, "max_payload_len")
+
+        def cbool(x):
+            x = strip_sym(x)
+            if not (isinstance(x, tuple) and x and x[0] == "bin"):
+                return None
+            op, l, r = x[1], x[2], x[3]
+            if is_len(l) and is_max(r):
+                return {"Gt": ("N", "P"), "Le": ("P", "N")}.get(op)
+            if is_max(l) and is_len(r):
+                return {"Lt": ("N", "P"), "Ge": ("P", "N")}.get(op)
+            return None
+
+        fl = PredFlow(commit, lambda subj, v: None, cbool)  # P = "the measured payload fits max_payload_len"
+        tr = [c for c in buf_ops(commit) if c.is_("truncate")]
+        offp_ = [c for c in nonforeign_calls(commit) if c.fn is commit and c.is_("Vec<T, A>::push") and "'offsets'" in repr(arg_syms(c)[0])]
+        agrees, _detail = fl.returned_bool_agrees()
+        cmpok = bool(tr) and all(fl.at(t.bb) == "N" for t in tr) and bool(offp_) and all(fl.at(c.bb) == "P" for c in offp_) and agrees
+        chk.ob("C09.c", f"{commit.path} [limit test]", cmpok, "current_len() > max_payload_len <=> truncate and return false; otherwise record the offset and return true" if cmpok else "commit does not reject exactly when the measured length exceeds max_payload_len", commit.loc())
         le = [c for c in nonforeign_calls(commit) if c.fn is commit and c.is_("to_le_bytes")]
         ok = len(le) == 1
         if ok:
@@ -329,6 +350,18 @@ def _root(s):
         else:
             break
     return s
+
+
+def _bytes_consts(s):
+    """All byte-string literals a value may be (a literal, or a choice between literals)."""
+    out = []
+    for x in sym_walk(strip_sym(s)):
+        if isinstance(x, tuple) and len(x) >= 3 and x[0] == "const" and x[1] == "bytes":
+            try:
+                out.append(bytes(x[2]).decode())
+            except Exception:
+                pass
+    return out
 
 
 def _bytes_const(s):
